@@ -158,6 +158,9 @@ POOLS = {
     "tB": [("I1", "I"), ("I2", "I"), ("M1", "M"), ("M2", "M"), ("S1", "S"),
            ("S2", "S"), ("B1", "B"), ("K1", "K"), ("D1", "D"), ("Y1", "Y"),
            ("P1", "P")],
+    # lower levels with siblings: two sections, two intervals, code + data
+    "q2": [("I1", "I"), ("M1", "M"), ("S1", "S"), ("S2", "S"), ("B1", "B"),
+           ("B2", "B"), ("K1", "K"), ("D1", "D")],
     "tiny": [("I1", "I"), ("M1", "M"), ("M2", "M"), ("S1", "S"), ("B1", "B"),
              ("K1", "K"), ("Y1", "Y"), ("P1", "P")],
 }
@@ -1354,6 +1357,20 @@ def isolation_check(props):
         if snap(a) != sa:
             v.append(("C04/isolation-argument-aliased:%s.%s" % (cname, attr),
                       "mutating the caller's argument changed the node"))
+    # stored bytes: two intervals built from one caller-owned bytearray
+    buf = bytearray(b"\x01\x02\x03\x04")
+    a = g.ByteInterval(size=8, contents=buf)
+    b = g.ByteInterval(size=8, contents=buf)
+    n += 1
+    a.initialized_size = 6
+    a.contents[0] = 0xEE
+    a.size = 2
+    if bytes(b.contents) != b"\x01\x02\x03\x04":
+        v.append(("C04/isolation-argument-shared:ByteInterval.contents",
+                  "two intervals built from one bytearray share their bytes"))
+    if bytes(buf) != b"\x01\x02\x03\x04":
+        v.append(("C04/isolation-argument-mutated:ByteInterval.contents",
+                  "editing the interval changed the caller's bytearray"))
     return n, [x for x in v if x[0][:3] in props]
 
 
@@ -1367,6 +1384,9 @@ def plan(ctx):
             ("forest-q", ForestScenario("q", ["detached", "chain", "loaded"],
                                         props, c16_probes=c16,
                                         idx_wide=False), None),
+            ("forest-q2", ForestScenario("q2", ["detached", "chain", "loaded"],
+                                         props, c16_probes=c16,
+                                         idx_wide=False), None),
             ("forest-twins", ForestScenario("tiny", ["twins"], props,
                                             c16_probes=False, ctor_ops=False,
                                             attr_ops=False, idx_wide=False), 1),
@@ -1449,6 +1469,7 @@ def replay(doc):
         return 1 if any(s == doc["signature"] for s, _ in viol) else 0
     table = {
         "forest-q": lambda: ForestScenario("q", [], (prop,), c16_probes=True),
+        "forest-q2": lambda: ForestScenario("q2", [], (prop,), c16_probes=True),
         "forest-tA": lambda: ForestScenario("tA", [], (prop,), c16_probes=True),
         "forest-tB": lambda: ForestScenario("tB", [], (prop,), c16_probes=True),
         "forest-twins": lambda: ForestScenario("tiny", [], (prop,)),
